@@ -148,7 +148,8 @@ var contents = []string{"hello world\n", "alpha\nbeta\ngamma\n", "", "one two\no
 
 // (the last two are ordinary files that happen to be called like the captured output of the last command: only cmp, cp and
 // stdin give those names their special meaning - and only in the first argument position - grep, exists, rm, mv do not)
-var fileNames = []string{"a.txt", "b.txt", "sub/c.txt", "sub/deep/d.txt", "e", "want.txt", "golden", "dir2/f.txt", "$WORK/g.txt", "with space.txt", "stdout", "stderr"}
+// (and two names that are other spellings of a.txt and b.txt: with RequireUniqueNames it is the file that counts)
+var fileNames = []string{"a.txt", "b.txt", "sub/c.txt", "sub/deep/d.txt", "e", "want.txt", "golden", "dir2/f.txt", "$WORK/g.txt", "with space.txt", "stdout", "stderr", "$WORK/./a.txt", "$WORK//b.txt"}
 
 func genArchive(t *rapid.T) []tsmodel.ArchiveFile {
 	n := rapid.IntRange(0, 6).Draw(t, "nfiles")
